@@ -52,23 +52,30 @@ def r1(c):
                 "the reverse orientation is tried only when the direct one did not match (elif/else): for a rule whose masks match a pair both ways each end runs a different "
                 "handler call and the two ends of one session disagree", key_text="elif")
 
-        def match_args(ifnode):
+        def match_info(ifnode):
+            """(match_pair argument texts, name of the variable holding the match result) of an orientation's test"""
+            pv_ = Provenance(fn)
             for x in ast.walk(ifnode.test):
-                if isinstance(x, ast.Call) and isinstance(x.func, ast.Attribute) and x.func.attr == "match_pair" and len(x.args) == 2:
-                    return [norm(x.args[0]), norm(x.args[1])]
-            return None
-        ma, mb = match_args(ifa), match_args(ifb)
+                if isinstance(x, ast.NamedExpr) and isinstance(x.value, ast.Call) and isinstance(x.value.func, ast.Attribute) and x.value.func.attr == "match_pair":
+                    return [norm(a) for a in x.value.args], x.target.id
+            for x in ast.walk(ifnode.test):
+                if isinstance(x, ast.Name):
+                    v = pv_.resolve_alias(x)
+                    if isinstance(v, ast.Call) and isinstance(v.func, ast.Attribute) and v.func.attr == "match_pair" and len(v.args) == 2:
+                        return [norm(a) for a in v.args], x.id
+            return None, None
+        (ma, va), (mb, vb) = match_info(ifa), match_info(ifb)
         ok = ma is not None and mb is not None and ma == list(reversed(mb)) and ma[0] != ma[1]
         c.check("C15.R1", ok, repo.loc(m, ifb), f"{fname}/swapped-match", f"match_pair arguments {ma} / {mb} are not each other's swap", key_text="swap-match")
-        ka = {k.arg: norm(k.value) for k in a.args[0].keywords}
-        kb = {k.arg: norm(k.value) for k in b.args[0].keywords}
+        ka = {k.arg: norm(k.value).replace(va or "\x00", "ARGS") for k in a.args[0].keywords}
+        kb = {k.arg: norm(k.value).replace(vb or "\x00", "ARGS") for k in b.args[0].keywords}
         ok = set(ka) == set(kb) and ka.get("name_left") == kb.get("name_right") and ka.get("name_right") == kb.get("name_left") and ka.get("name_left") != ka.get("name_right") \
             and ka.get("direct_order") == "True" and kb.get("direct_order") == "False" and \
             all(ka[k] == kb[k] for k in ka if k not in ("name_left", "name_right", "direct_order"))
         c.check("C15.R1", ok, repo.loc(m, b), f"{fname}/mirrored-record", f"the reverse record {kb} is not the mirror of the direct one {ka}", key_text="mirror")
         # the names correspond to the match arguments' devices
-        ok = ka.get("match_left") == "args[0]" and ka.get("match_right") == "args[1]"
-        c.check("C15.R1", ok, repo.loc(m, a), f"{fname}/match-sides", "match_left/match_right are not args[0]/args[1] of the orientation's own match", key_text="sides")
+        ok = ka.get("match_left") == "ARGS[0]" and ka.get("match_right") == "ARGS[1]" and kb.get("match_left") == "ARGS[0]"
+        c.check("C15.R1", ok, repo.loc(m, a), f"{fname}/match-sides", "match_left/match_right are not element 0/1 of the orientation's own match result", key_text="sides")
 
 
 def _arms(fn, gm):
